@@ -83,6 +83,12 @@ def cases(ctx):
             i = rng.randrange(len(w) - 200, len(w))
             mw[i] ^= 1 << rng.randrange(8)
             yield "parse:mutated", [2, bytes(mw), origin, 16]
+    # low-level Renderer sequences (TooBig caught by the caller, more records with the same owner
+    # afterwards): the compression table must not keep entries of rolled-back octets
+    for i in range(ctx.n(120, 3000)):
+        origin = None if rng.random() < 0.8 else [b"o", b"example", b""]
+        mid, flags, ms, ops = g.gen_rseq(rng, origin)
+        yield "rseq", [7, origin, mid, flags, ms, ops]
     # hostile hand-made wires
     for w in hostile_wires():
         yield "parse:hostile", [2, w, None, 16]
@@ -179,6 +185,9 @@ def impl(case):
     if op == 2:
         _, w, origin, po = case
         return g.run_parse(w, origin, po)
+    if op == 7:
+        _, origin, mid, flags, ms, ops = case
+        return g.run_rseq(origin, mid, flags, ms, ops)
     if op == 3:
         _, flags, ef, v = case
         try:
@@ -242,6 +251,9 @@ def oracle(ctx, kind, case, out):
         F.append({"kind": kind.split(":")[0] + ":" + what, "what": what, "case_kind": kind, **kw})
 
     op = case[0]
+    if op == 7:
+        g.check_rseq(case, out, fail)
+        return F
     if isinstance(out, Err):
         if out.code >= 100 and op in (1, 4):
             fail("unexpected exception " + out.text)
@@ -334,7 +346,7 @@ def oracle(ctx, kind, case, out):
     def canon_sections(x, orig):
         res = []
         for s in x[2]:
-            res.append(sorted((lower_name(rs[0], orig), rs[1], rs[2], rs[3], rs[4], rs[5],
+            res.append(sorted((lower_name(rs[0], orig), rs[1], rs[2], rs[3], rs[4], rs[5] if rs[6] else 0,
                                tuple(sorted(canon_rd(rd, orig) for rd in rs[6]))) for rs in s))
         return res
 
